@@ -548,6 +548,11 @@ func (st *e3State) step(op e3Op, rng *rand.Rand, part *h.Partial) []e3Verdict {
 			return nil
 		}
 		f := cand[rng.Intn(len(cand))]
+		for _, c := range cand {
+			if c == op.Arg {
+				f = c // a particular unmatched file was asked for
+			}
+		}
 		st.serial++
 		st.write(f, fmt.Sprintf("unmatched %d\n", st.serial))
 		rec.Op = "edit-unmatched " + f
@@ -1257,6 +1262,18 @@ func runE3(id string, start time.Time) int {
 				ops := []e3Op{{Kind: "run"}, {Kind: "run-other"}, {Kind: "run"}, {Kind: "run-other"}, {Kind: "run"}, {Kind: "edit"}, {Kind: "run-other"}, {Kind: "run"}, {Kind: "run"}}
 				jobs = append(jobs, job{s, ops, "interleaved-instances", i})
 				i++
+			}
+		}
+		// exclude entries of a task that lives in an included Taskfile (the merge copies the task): a file taken out by
+		// an exclude stays out, whatever happens to it
+		for _, method := range []string{"checksum", "timestamp"} {
+			for _, shape := range []string{"ns", "plain", "label"} {
+				s := e3Shape{Method: method, Glob: 2, Shape: shape, NCmds: 2}
+				s.fixNames()
+				for _, f := range []string{"src/x_1.txt", "src/x_2.txt"} {
+					jobs = append(jobs, job{s, []e3Op{{Kind: "run"}, {Kind: "edit-unmatched", Arg: f}, {Kind: "run"}, {Kind: "edit-unmatched", Arg: f}, {Kind: "run"}, {Kind: "edit"}, {Kind: "run"}}, "excluded-file", i})
+					i++
+				}
 			}
 		}
 		// a source edited while the commands run (after the up-to-date check) must make the next run execute again
